@@ -12,8 +12,8 @@ For every <seed_out_dir>/Cxx/mK/{patch.diff,demo.py,meta.json}:
 import sys, os, json, subprocess, shutil, glob
 VERIF = os.path.dirname(os.path.dirname(os.path.abspath(__file__)))
 WT = '/tmp/seedrun_wt_%d' % os.getpid()
-EXTRA = {'C01': ['C12', 'C17', 'C18'], 'C03': ['C01', 'C17'], 'C12': ['C09', 'C01'], 'C16': ['C11'], 'C02': ['C17'],
-         'C17': ['C01', 'C02', 'C16', 'C20'], 'C18': ['C01', 'C12', 'C20']}
+EXTRA = {'C01': ['C09', 'C12', 'C17', 'C18'], 'C03': ['C01', 'C17'], 'C12': ['C09', 'C01', 'C15'], 'C16': ['C11'], 'C02': ['C17'],
+         'C17': ['C01', 'C02', 'C16', 'C20'], 'C18': ['C01', 'C12', 'C20'], 'C09': ['C10', 'C12']}
 
 
 def sh(cmd, cwd=None, env=None, timeout=3600):
